@@ -175,3 +175,32 @@ Proof.
   intros Hm j H. destruct (le_lt_dec k j) as [L|L]; [|exact L].
   pose proof (requests_found_open closed answers _ _ _ H) as X. rewrite (Hm j L) in X. discriminate.
 Qed.
+
+(* --- helpers.Retry --- *)
+Lemma helper_retry_spec answers : forall attempts i, 0 < attempts ->
+  let '(n, ok) := helper_retry answers attempts i in
+  (ok = true -> exists k, k < attempts /\ n = S k /\ answers (i + k) = true /\ forall j, j < k -> answers (i + j) = false) /\
+  (ok = false -> n = attempts /\ forall j, j < attempts -> answers (i + j) = false).
+Proof.
+  induction attempts as [|r IH]; intros i Hr; [lia|].
+  cbn [helper_retry]. destruct (answers i) eqn:Ha.
+  - split; [|discriminate]. intros _. exists 0. rewrite Nat.add_0_r. repeat split; [lia|exact Ha|intros j Hj; lia].
+  - destruct r as [|r'].
+    + split; [discriminate|]. intros _. split; [reflexivity|]. intros j Hj. assert (j = 0) by lia. subst. rewrite Nat.add_0_r. exact Ha.
+    + specialize (IH (S i) ltac:(lia)). destruct (helper_retry answers (S r') (S i)) as [n ok]. destruct IH as [IH1 IH2]. split.
+      * intros Hok. destruct (IH1 Hok) as (k & Hk & -> & Hak & Hf). exists (S k). repeat split; [lia| |].
+        -- replace (i + S k) with (S i + k) by lia. exact Hak.
+        -- intros j Hj. destruct j as [|j']; [rewrite Nat.add_0_r; exact Ha|]. replace (i + S j') with (S i + j') by lia. apply Hf. lia.
+      * intros Hok. destruct (IH2 Hok) as [-> Hf]. split; [reflexivity|]. intros j Hj.
+        destruct j as [|j']; [rewrite Nat.add_0_r; exact Ha|]. replace (i + S j') with (S i + j') by lia. apply Hf. lia.
+Qed.
+
+(* the helper reports a failure exactly when every one of its (at least one) calls failed: a dead peer is never reported alive *)
+Lemma helper_retry_fails_iff answers attempts : 0 < attempts ->
+  (snd (helper_retry answers attempts 0) = false <-> forall j, j < attempts -> answers j = false).
+Proof.
+  intros Hr. pose proof (helper_retry_spec answers attempts 0 Hr) as S. destruct (helper_retry answers attempts 0) as [n ok].
+  destruct S as [S1 S2]. cbn [snd]. split.
+  - intros ->. destruct (S2 eq_refl) as [_ Hf]. exact Hf.
+  - intros Hf. destruct ok; [|reflexivity]. destruct (S1 eq_refl) as (k & Hk & _ & Hak & _). cbn in Hak. rewrite (Hf k Hk) in Hak. discriminate.
+Qed.
